@@ -1358,6 +1358,12 @@ impl World {
             }
             return;
         }
+        if !self.reps[i].behind && self.reps[i].travelled.is_none() && self.r.chance(50) {
+            self.travel_arbitrary(i, &latest);
+            if self.reps[i].dead {
+                return;
+            }
+        }
         let hs: BTreeSet<String> = h.iter().map(|x| x.to_string()).collect();
         self.t(format!("r{}.reload_until(heads_log[{}] = {} heads)", i, k, h.len()));
         let res = {
@@ -1455,6 +1461,112 @@ impl World {
                 }
             }
             Outcome::Err(e) => self.res.viol("C14", "reload_until-returned-error", e),
+            Outcome::Panic(p) => {
+                self.panic_viol("C14", "reload_until", &p);
+                self.reps[i].dead = true;
+            }
+        }
+    }
+
+    /// Time travel to an ARBITRARY non-empty set of applied blocks (not a head set the replica ever had,
+    /// possibly holding a block together with one of its ancestors): the state must be the one the
+    /// reference model derives from those blocks and their ancestors, the heads the maximal chosen blocks,
+    /// a replica opened with new_until must agree, and reload() must come back to the latest state.
+    fn travel_arbitrary(&mut self, i: usize, latest: &Obs) {
+        let files = store::dump(&self.reps[i].ad);
+        let rs = refmodel::build(&files);
+        let cur_heads: BTreeSet<String> = latest.anchors.clone();
+        let (applied, _) = refmodel::trees_until(&rs, &cur_heads);
+        if applied.len() < 3 {
+            return;
+        }
+        // choose by content-derived keys, never by item names
+        let keys = refmodel::canonical_item_keys(&files);
+        let mut cand: Vec<(String, String)> = applied.iter().filter_map(|b| keys.get(&format!("{}.delta", b)).map(|k| (k.clone(), b.clone()))).collect();
+        cand.sort();
+        let n = 1 + self.r.below(3.min(cand.len()));
+        let mut chosen: BTreeSet<String> = BTreeSet::new();
+        for _ in 0..n {
+            chosen.insert(cand[self.r.below(cand.len())].1.clone());
+        }
+        let h: BTreeSet<DeltaId> = chosen.iter().filter_map(|b| DeltaId::from(b).ok()).collect();
+        if h.len() != chosen.len() {
+            return;
+        }
+        let (anc, trees) = refmodel::trees_until(&rs, &chosen);
+        // maximal chosen blocks: those that are not a proper ancestor of another chosen block
+        let mut maximal = chosen.clone();
+        for c in &chosen {
+            let one: BTreeSet<String> = std::iter::once(c.clone()).collect();
+            let (a, _) = refmodel::trees_until(&rs, &one);
+            for x in a {
+                if x != *c {
+                    maximal.remove(&x);
+                }
+            }
+        }
+        self.t(format!("r{}.reload_until(arbitrary set of {} blocks, {} maximal, {} ancestors)", i, chosen.len(), maximal.len(), anc.len()));
+        let res = {
+            let m = &self.reps[i].m;
+            guard(|| m.reload_until(&h))
+        };
+        match res {
+            Outcome::Ok(()) => {
+                let st = observe(&self.reps[i].m);
+                if st.anchors != maximal {
+                    self.res.viol("C14", "heads-after-arbitrary-travel", format!("{:?} vs maximal chosen {:?}", st.anchors, maximal));
+                }
+                let lo: BTreeSet<String> = st.objects.keys().cloned().collect();
+                let ro: BTreeSet<String> = trees.keys().cloned().collect();
+                if lo != ro {
+                    self.res.viol("C14", "arbitrary-travel-objects-vs-ancestor-blocks", format!("{:?} vs {:?}", lo, ro));
+                } else {
+                    for (u, t) in &trees {
+                        let (leaves, w) = refmodel::leaves_winner(t);
+                        if w.as_deref() != Some(st.objects[u].winner.as_str()) {
+                            self.res.viol("C14", "arbitrary-travel-winner-vs-ancestor-blocks", format!("{}: {} vs {:?}", u, st.objects[u].winner, w));
+                        }
+                        let conf: BTreeSet<String> = leaves.iter().filter(|l| Some(l.as_str()) != w.as_deref()).cloned().collect();
+                        let got: BTreeSet<String> = st.objects[u].conflicting.iter().cloned().collect();
+                        if conf != got {
+                            self.res.viol("C14", "arbitrary-travel-conflicts-vs-ancestor-blocks", format!("{}: {:?} vs {:?}", u, got, conf));
+                        }
+                    }
+                }
+                set_caps(self.reps[i].caps);
+                let ad = self.reps[i].ad.clone();
+                match guard(|| Melda::new_until(ad, &h)) {
+                    Outcome::Ok(m2) => {
+                        let o2 = observe(&m2);
+                        if o2.s_value(false) != st.s_value(false) || o2.anchors != st.anchors {
+                            self.res.viol("C14", "arbitrary-travel-new_until-differs", st.diff(&o2));
+                        }
+                    }
+                    o => self.res.viol("C14", "arbitrary-travel-new_until-failed", o.describe()),
+                }
+                self.res.count("c14_arbitrary_travels_checked", 1);
+                if chosen.len() > maximal.len() {
+                    self.res.count("c14_arbitrary_travels_with_ancestor_and_descendant", 1);
+                }
+                let r2 = {
+                    let m = &self.reps[i].m;
+                    guard(|| m.reload())
+                };
+                match r2 {
+                    Outcome::Ok(()) => {
+                        let back = observe(&self.reps[i].m);
+                        if back.s_value(false) != latest.s_value(false) || back.anchors != latest.anchors {
+                            self.res.viol("C14", "reload-does-not-return-to-latest", latest.diff(&back));
+                        }
+                    }
+                    Outcome::Panic(p) => {
+                        self.panic_viol("C14", "reload", &p);
+                        self.reps[i].dead = true;
+                    }
+                    o => self.res.viol("C14", "reload-after-travel-failed", o.describe()),
+                }
+            }
+            Outcome::Err(e) => self.res.viol("C14", "reload_until-returned-error", format!("arbitrary set: {}", e)),
             Outcome::Panic(p) => {
                 self.panic_viol("C14", "reload_until", &p);
                 self.reps[i].dead = true;
